@@ -185,6 +185,9 @@ func c17Eval(c c17Case) (ok bool, sig, detail string) {
 		if c.E == 1 {
 			ver = ""
 		}
+		if c.E == 2 {
+			ver = "AB000001.1  GI:12345" // older records carry a GI number after the version
+		}
 		gb := seqio.GenBank{
 			Fields: seqio.GenBankFields{LocusName: "GEN", Molecule: gts.DNA, Topology: gts.Linear, Division: "UNA",
 				Date: seqio.Date{Year: 2001, Month: 2, Day: 3}, Definition: def, Accession: "AB000001", Version: ver},
@@ -193,6 +196,17 @@ func c17Eval(c c17Case) (ok bool, sig, detail string) {
 		}
 		var variants []gts.Sequence
 		variants = append(variants, gb)
+		region := map[int]string{}
+		if n >= 12 {
+			// a slice of the record: the description carries the region right after the version text
+			var sl gts.Sequence
+			if p, msg := engine.Safely(func() { sl = gts.Slice(gb, 3, n-4) }); p {
+				return false, "panic", "Slice panics: " + msg
+			}
+			variants = append(variants, sl)
+			region[1] = fmt.Sprintf(":%d-%d", 4, n-4)
+		}
+		nbase := len(variants)
 		{
 			var buf bytes.Buffer
 			if p, msg := engine.Safely(func() { seqio.NewWriter(&buf, seqio.GenBankFile).WriteSeq(gb) }); p {
@@ -204,7 +218,7 @@ func c17Eval(c c17Case) (ok bool, sig, detail string) {
 				variants = append(variants, sc.Value())
 			}
 			seqioMu.Unlock()
-			if len(variants) != 2 {
+			if len(variants) != nbase+1 {
 				return false, "convert-read", fmt.Sprintf("generated record with a %d-line definition is not read back by the GenBank reader", c.S+1)
 			}
 		}
@@ -221,12 +235,16 @@ func c17Eval(c c17Case) (ok bool, sig, detail string) {
 			if pan != "" || errText != "" || len(got) != 1 {
 				return false, "convert-read", fmt.Sprintf("variant %d, %d-line definition: converted record unreadable: %s %s (%d records)", vi, c.S+1, pan, errText, len(got))
 			}
-			wantDesc := strings.ReplaceAll(ver+" "+def, "\n", " ")
+			wantDesc := strings.ReplaceAll(ver+region[vi]+" "+def, "\n", " ")
+			wantData := string(data)
+			if region[vi] != "" {
+				wantData = string(data[3 : n-4])
+			}
 			if got[0].desc != wantDesc {
 				return false, "convert-description", fmt.Sprintf("variant %d, %d-line definition: description %q want %q", vi, c.S+1, got[0].desc, wantDesc)
 			}
-			if got[0].data != string(data) {
-				return false, "convert-residues", fmt.Sprintf("variant %d, %d-line definition: %d residues in FASTA, %d in the record", vi, c.S+1, len(got[0].data), len(data))
+			if got[0].data != wantData {
+				return false, "convert-residues", fmt.Sprintf("variant %d, %d-line definition: %d residues in FASTA, %d in the record", vi, c.S+1, len(got[0].data), len(wantData))
 			}
 		}
 		return true, "", ""
@@ -360,7 +378,7 @@ func init() {
 			// generated GenBank records with DEFINITIONs of 1..6 lines (with and without a VERSION) converted to FASTA
 			for nl := 0; nl <= 5; nl++ {
 				for _, n := range []int{0, 1, 70, 75, 141} {
-					for nover := 0; nover <= 1; nover++ {
+					for nover := 0; nover <= 2; nover++ {
 						eval(c17Case{Kind: "convertgen", S: nl, E: nover, Ns: []int{n}}, 2500+nl, true)
 					}
 				}
